@@ -931,3 +931,141 @@ func (f *Flow) reachErrAware(starts []point, stop, target nodePred, endIsTarget 
 	}
 	return nil, false
 }
+
+// allPathsImply enumerates the acyclic CFG paths from the entry to the node containing target,
+// collects the branch conditions taken along each, and reports whether on every path the
+// conjunction of those conditions implies holds(atom, value) for some atomic sub-condition —
+// decided by enumerating the truth assignments of the atoms (conditions are split at && || !).
+// It subsumes edge-wise facts: `case a && b: …; case a:` implies !b in the second case.
+func (f *Flow) allPathsImply(target ast.Node, holds func(e ast.Expr, val bool) bool) bool {
+	contains := func(nd ast.Node) bool {
+		hit := nd == target
+		if !hit {
+			ast.Inspect(nd, func(m ast.Node) bool {
+				if m == target {
+					hit = true
+				}
+				return !hit
+			})
+		}
+		return hit
+	}
+	type cons struct {
+		e   ast.Expr
+		val bool
+	}
+	ok := true
+	paths := 0
+	var atomsOf func(e ast.Expr, out map[string]ast.Expr)
+	atomsOf = func(e ast.Expr, out map[string]ast.Expr) {
+		e = ast.Unparen(e)
+		switch x := e.(type) {
+		case *ast.UnaryExpr:
+			if x.Op == token.NOT {
+				atomsOf(x.X, out)
+				return
+			}
+		case *ast.BinaryExpr:
+			if x.Op == token.LAND || x.Op == token.LOR {
+				atomsOf(x.X, out)
+				atomsOf(x.Y, out)
+				return
+			}
+		}
+		out[types.ExprString(e)] = e
+	}
+	var evalB func(e ast.Expr, asg map[string]bool) bool
+	evalB = func(e ast.Expr, asg map[string]bool) bool {
+		e = ast.Unparen(e)
+		switch x := e.(type) {
+		case *ast.UnaryExpr:
+			if x.Op == token.NOT {
+				return !evalB(x.X, asg)
+			}
+		case *ast.BinaryExpr:
+			switch x.Op {
+			case token.LAND:
+				return evalB(x.X, asg) && evalB(x.Y, asg)
+			case token.LOR:
+				return evalB(x.X, asg) || evalB(x.Y, asg)
+			}
+		}
+		return asg[types.ExprString(e)]
+	}
+	judge := func(cs []cons) bool {
+		atoms := map[string]ast.Expr{}
+		for _, c := range cs {
+			atomsOf(c.e, atoms)
+		}
+		var names []string
+		for k := range atoms {
+			names = append(names, k)
+		}
+		sort.Strings(names)
+		if len(names) > 14 {
+			return false
+		}
+		for m := 0; m < 1<<len(names); m++ {
+			asg := map[string]bool{}
+			for i, nm := range names {
+				asg[nm] = m&(1<<i) != 0
+			}
+			sat := true
+			for _, c := range cs {
+				if evalB(c.e, asg) != c.val {
+					sat = false
+					break
+				}
+			}
+			if !sat {
+				continue
+			}
+			implied := false
+			for _, nm := range names {
+				if holds(atoms[nm], asg[nm]) {
+					implied = true
+					break
+				}
+			}
+			if !implied {
+				return false
+			}
+		}
+		return true
+	}
+	var walk func(b *cfg.Block, cs []cons, onPath map[*cfg.Block]bool)
+	walk = func(b *cfg.Block, cs []cons, onPath map[*cfg.Block]bool) {
+		if !ok || onPath[b] || paths > 512 {
+			return
+		}
+		onPath[b] = true
+		defer delete(onPath, b)
+		for _, n := range b.Nodes {
+			if contains(n) {
+				paths++
+				if !judge(cs) {
+					ok = false
+				}
+				return
+			}
+			if isReturn(n) {
+				return
+			}
+		}
+		cond, _, _ := condOf(b)
+		if cond != nil {
+			if syn, isTagged := taggedCase[cond]; isTagged {
+				cond = syn
+			}
+		}
+		for si, s := range b.Succs {
+			next := cs
+			if cond != nil && len(b.Succs) == 2 {
+				next = append(append([]cons(nil), cs...), cons{cond, si == 0})
+			}
+			walk(s, next, onPath)
+		}
+	}
+	walk(f.G.Blocks[0], nil, map[*cfg.Block]bool{})
+	return ok && paths > 0
+}
